@@ -848,6 +848,18 @@ async fn ensure_proposition(
         }
     }
 
+    // Another clause of this block may already be creating the tuple — an
+    // `ENSURE` and an `ASSERT` about one claim is the ordinary way to get
+    // there. It is the same Proposition, so this clause binds it. The guard
+    // above has already been answered: a guard speaks about the state the
+    // transaction started from, and the tuple was not in it.
+    if let Some(id) = tx.staged_proposition(&key) {
+        if let Some(handle) = &clause.handle {
+            tx.bind_existing(handle, id)?;
+        }
+        return Ok(());
+    }
+
     let id = tx.mint(ElementKind::Proposition).await?;
     if let Some(handle) = &clause.handle {
         tx.bind_existing(handle, id)?;
